@@ -842,12 +842,13 @@ def plant_unreadable(doc, rng, kind):
     return pi, x.num
 
 
-def write_encrypted(doc, rng, damaged, nbytes):
+def write_encrypted(doc, rng, damaged, nbytes, method="AESV2"):
     """the document under the standard security handler (AESV2, empty user password), classic table; the encrypted data of
     stream `damaged` cut to `nbytes` bytes (not a whole number of cipher blocks after the IV: it cannot be decrypted)"""
     from oracle import security as S
-    doc.features.add("file:encrypted")
-    h = S.Handler(4, "AESV2", 16, b"", b"owner", -4, b"0123456789abcdef")
+    doc.features.add("file:encrypted-" + method)
+    h = S.Handler(4, "AESV2", 16, b"", b"owner", -4, b"0123456789abcdef") if method == "AESV2" else \
+        S.Handler(3, "V2", 16, b"", b"owner", -4, b"0123456789abcdef")
     ivs = iter(lambda: rnd_bytes(rng, 16), None)
     enc = S.protect(dict(doc.objs), h, ivs)
     if nbytes is not None:
